@@ -47,6 +47,7 @@ type specCtx struct {
 	evFrom    int
 	letExprs  map[string]ast.Expr
 	letBusy   map[string]bool
+	addrVars  map[string]PtrV
 }
 
 func (x *Exec) specCtxFor(st *State, fr *Frame, pre *preSnap) *specCtx {
@@ -55,6 +56,7 @@ func (x *Exec) specCtxFor(st *State, fr *Frame, pre *preSnap) *specCtx {
 		for k, v := range pre.params {
 			sc.vars[k] = v
 		}
+		sc.addrVars = pre.addrParams
 		sc.evFrom = pre.nEvent
 	}
 	if x.rootC != nil && fr.fn == x.root {
@@ -201,6 +203,9 @@ func (sc *specCtx) lookupVar(name string) (Value, bool) {
 	}
 	if v, ok := sc.vars[name]; ok {
 		return v, true
+	}
+	if p, ok := sc.addrVars[name]; ok {
+		return sc.load(p), true
 	}
 	if v, ok := sc.lets[name]; ok {
 		return v, true
@@ -929,6 +934,17 @@ func (x *Exec) matchEvent(sc *specCtx, f ast.Expr, ev *Event) Term {
 		// static function or method name
 		return boolLit(nameMatches(ev.Name, f.Name))
 	case *ast.SelectorExpr:
+		if id, ok := f.X.(*ast.Ident); ok {
+			if _, isVar := sc.lookupVar(id.Name); !isVar {
+				if p := sc.importedPkg(id.Name); p != nil {
+					// pkg.Func
+					if cv, ok := ev.Callee.(FuncV); ok && cv.Fn != nil {
+						return boolLit(cv.Fn.Name() == f.Sel.Name && pkgPathOf(cv.Fn) == p.Path())
+					}
+					return tFalse
+				}
+			}
+		}
 		// recv.Method
 		base := x.evalSpec(sc, f.X)
 		switch b := base.(type) {
